@@ -67,6 +67,10 @@ def describe(v):
     if v["violation_lines"] and all("no-failing-input-found" in l for l in v["violation_lines"]):
         return " (no-failing-input-found)"
     return " (witness)"
+strengthened.update({
+ "C04-I":"missed by C04 at first (flagged by C02 only): mktp families ep-push / ep-disc (double push transposed with a slider move lining up behind the origin square; section 9.10)",
+})
+
 out = ["| seed | files changed | flagged by (quick tier, machinery as committed) | also run, silent | missed at first → what was strengthened |", "|---|---|---|---|---|"]
 for d in sorted(glob.glob("/verif/seeded/C*/")):
     name = os.path.basename(d.rstrip("/"))
